@@ -23,3 +23,14 @@ func (da *DependAtom) VerifFlagsMatch(tstAtom atom.Atom, contextUse atom.UseFlag
 	ok, err := da.useDependencies.FlagsMatch(tstAtom, contextUse)
 	return ok, err != nil
 }
+
+// Verification hooks (build tag verif, add-only): access to the unexported tokenizer.
+
+// VerifGetToken runs getToken on buf starting at pos and returns its results together
+// with the cursor position afterwards.
+func VerifGetToken(buf []byte, pos int) (start, toktype int, useFlag string, newPos int) {
+	ac := parse.NewAtomCursor(buf)
+	ac.Pos = pos
+	start, toktype, useFlag = getToken(ac)
+	return start, toktype, useFlag, ac.Pos
+}
